@@ -112,6 +112,15 @@ def main(repo, outdir):
             exp = [("state.state", "state"), ("calibration", "calibration"), ("control", "control")][:want]
             if subs != exp:
                 raise Untranslatable(f"cpp.{fn}: substitution set {subs}")
+        # the model-only generator (cpp.compile): same statement loop, same kind of substitution set, positional return in state order
+        t = src(cp, "Model._translate_model")
+        must(re.search(r"for a in self\.arglist_state:\n\s+expr_before = symbolic_model\.state_model\[a\]\n\s+expr_after = expr_before\.subs\(subs_set\)\n\s+yield \(f'double \{a\.name\}', expr_after\)", t),
+             "cpp.Model._translate_model changed")
+        subs = re.findall(r"\[\(member, Symbol\('([\w.]+)\.\{\}\(\)'\.format\(member\)\)\) for member in self\.arglist_(\w+)\]", t)
+        if subs != [("state", "state"), ("calibration", "calibration"), ("control", "control")] or t.count("subs_set =") != 1:
+            raise Untranslatable(f"cpp.Model._translate_model: substitution set {subs}")
+        t = src(cp, "Model._translate_return")
+        must(re.search(r"content = ', '\.join\(\(str\(symbol\) for symbol in self\.arglist_state\)\)\n\s+return 'State\(\{' \+ content \+ '\}\)'", t), "cpp.Model._translate_return changed")
         # jacobians
         t = src(cp, "ExtendedKalmanFilter._translate_process_jacobian")
         must(re.search(r"for idx, symbol in enumerate\(self\.arglist_state\):\n\s+model = symbolic_model\.state_model\[symbol\]\n\s+for state_idx, state in enumerate\(self\.arglist_state\):\n"
